@@ -11,7 +11,7 @@ from harness.impl import fordrun as F
 
 IMPORTS = "From Ford Require Import Base.Str Out.Names Corr.C10."
 THEOREMS = ["C10_idents_distinct", "C10_idents_idempotent", "C10_reachable_inv", "C10_outfiles_distinct",
-            "C10_anchors_distinct", "C10_src_copy_partial", "C10_src_copy_refuted"]
+            "C10_anchors_distinct", "C10_src_copy_partial", "C10_src_copy_refuted", "C10_model_meets_spec"]
 DIRS = ["proc", "module", "type", "interface", "program", "sourcefile", "blockdata", "namelist", "None"]
 NAMES = ["init", "Init", "INIT", "a", "A", "b", "", "operator(<)", "operator(lt)", "operator(>)", "operator(/)",
          "operator(*)", "operator(//)", "operator(<=)", "operator(SLASH)", "x.f90", "X.F90", "assignment(=)",
